@@ -32,6 +32,9 @@ structure Timer where
   hbTimes : Nat := 0
   lastComm : Option Nat := none     -- last_effective_comm
   idleBegin : Option Nat := none    -- idle_begin_at
+  /-- `sent_since_rcvd` (repo_patches/fix-C17-idle-restart-on-send.diff): an effective packet was sent since the
+  last packet was received.  RFC 9000 §10.1: only the FIRST such send restarts the idle timer. -/
+  sentSinceRcvd : Bool := false
   deriving DecidableEq, Repr, Inhabited
 
 inductive Obs where
@@ -51,10 +54,19 @@ def Op.time : Op → Option Nat
   | .health t => some t
   | .negotiate _ => Option.none
 
+/-- `IdleTimer::on_sent` (fixed code) -/
 def onSent (t : Timer) (eff : Bool) (now : Nat) : Timer :=
+  if eff then
+    if t.sentSinceRcvd then t
+    else { t with sentSinceRcvd := true, lastComm := some now, hbTimes := 0, idleBegin := none }
+  else t
+
+/-- `IdleTimer::on_sent` AS FOUND (before the fix): every effective send restarts the timer -/
+def onSentOld (t : Timer) (eff : Bool) (now : Nat) : Timer :=
   if eff then { t with lastComm := some now, hbTimes := 0, idleBegin := none } else t
 
 def onRcvd (t : Timer) (eff : Bool) (now : Nat) : Timer :=
+  let t := { t with sentSinceRcvd := false }
   let t1 := if eff then { t with lastComm := some now, hbTimes := 0, idleBegin := none } else t
   if t1.idleBegin.isSome then { t1 with idleBegin := some now } else t1
 
@@ -82,5 +94,12 @@ def step (t : Timer) : Op → Timer × Obs
   | .negotiate r => ({ t with cfg := t.cfg.negotiate r }, .none)
 
 def run (t : Timer) (ops : List Op) : Timer := ops.foldl (fun t o => (step t o).1) t
+
+/-- the code as found (only `on_sent` differs) -/
+def stepOld (t : Timer) : Op → Timer × Obs
+  | .sent e now => (onSentOld t e now, .none)
+  | op => step t op
+
+def runOld (t : Timer) (ops : List Op) : Timer := ops.foldl (fun t o => (stepOld t o).1) t
 
 end GmQuic.Idle
